@@ -79,7 +79,7 @@ def run(tier, seed):
     kp = _os.path.join(core.VERIF, "corpus", "C03", "mirror_even_degree.json")
     if _os.path.exists(kp):          # inputs of the known finding: replayed on every run (after the regression sequences)
         FIXED[:] = sorted(FIXED + [list(c["source_phases"]) for c in _json.load(open(kp))[:4]], key=len)
-    ctx = core.Ctx(PROP, tier, seed, "exploration", ["C03", "C03b", "C03c", "C04b", "C06e", "C06f", "C06g", "C01", "C02"])
+    ctx = core.Ctx(PROP, tier, seed, "exploration", ["C03", "C03b", "C03c", "C03d", "C04b", "C06e", "C06f", "C06g", "C01", "C02"])
     ctx.axioms = core.audit(ctx.modules)
     import pyqsp.angle_sequence as A
     import pyqsp.completion as C
